@@ -28,7 +28,7 @@ CACHEMON = {
             'floor': 100, 'req': ['c18_introspection_checks', 'twin_runs']},
     'C20': {'quick': {'cases': 2400, 'budget_s': 50}, 'thorough': {'cases': 40000, 'budget_s': 600},
             'floor': 100, 'req': ['c20_roundtrips', 'c20_lockstep_steps', 'c20_independence_checks',
-                                  'c20_continuations_with_eviction']},
+                                  'c20_continuations_with_eviction', 'c20_cross_process_restores']},
 }
 
 ASSUME_COMMON = [
